@@ -234,6 +234,15 @@ func validateEncoder(rr *runResult, n int) (int, []string, []string) {
 			nat := native[i]
 			es := cr.Summary()
 			ns := fmt.Sprintf("status=%s failures=%v reached=%v obs=%v", normStatus(nat.Status), sortedCopy(nat.Failures), sortedCopy(dedup(nat.Reached)), nat.Obs)
+			for try := 0; es != ns && rr.spec.TimedNative && try < 2; try++ {
+				// real timers: retry the tape alone
+				again, err := nativeReplay(rr.engine, rr.spec, pkg, []string{path}, 1)
+				if err != nil || len(again) != 1 {
+					break
+				}
+				nat = again[0]
+				ns = fmt.Sprintf("status=%s failures=%v reached=%v obs=%v", normStatus(nat.Status), sortedCopy(nat.Failures), sortedCopy(dedup(nat.Reached)), nat.Obs)
+			}
 			if es != ns {
 				bad = append(bad, fmt.Sprintf("%s tape %s: engine{%s} native{%s}", tp.Harness, filepath.Base(path), es, ns))
 				continue
